@@ -49,6 +49,11 @@ def queries(tier, seed):
         for w in v['jwheres']:
             for jt in ('INNER JOIN', 'LEFT JOIN'):
                 qs.append(('join', {'kind': 'select', 'items': lst, 'where': w, 'join': {'type': jt, 'keys': [(('f', 'a', 1), ('f', 'b', 1))]}}))
+    # wide rows: two-digit field numbers (a10, a11, a12) in items and EXCEPT lists
+    for ex in ([('f', 'a', 3), ('f', 'a', 11)], [('f', 'a', 11), ('f', 'a', 2), ('f', 'a', 10)], [('f', 'a', 12)], [('f', 'a', 1), ('f', 'a', 10, 'a[N]')]):
+        qs.append(('wide', {'kind': 'select', 'items': [('star', None)], 'except_cols': ex, 'where': None, 'join': None}))
+    for lst in ([('f', 'a', 10), ('f', 'a', 1)], [('f', 'a', 11, 'a[N]'), ('f', 'a', 12), ('f', 'a', 13)], [('cat', ('f', 'a', 1), ('f', 'a', 10)), ('f', 'a', 2)]):
+        qs.append(('wide', {'kind': 'select', 'items': lst, 'where': ('cmp', '!=', ('f', 'a', 12), ('lit', 'zz')), 'join': None}))
     if tier == 'thorough':
         for lst in item_lists(v['jitems'], 3):
             if len(lst) == 3:
@@ -87,7 +92,10 @@ def run_shard(sh):
     jscases = []
     for kind, q in qs[sh['lo']:sh['hi']]:
         text = refql.render(q)
-        if kind == 'plain':
+        if kind == 'wide':
+            w12 = [['c%d' % i for i in range(1, 13)], ['d%d' % i for i in range(1, 13)], ['e%d' % i for i in range(1, 12)]]
+            cases = [(T, None) for T in qcheck.tables_upto(w12, 2)]
+        elif kind == 'plain':
             cases = [(T, None) for T in plain_tables] + [(plain_long, None)]
         else:
             cases = [(T, B) for B in v['Bs'] for T in join_tables] + [(join_long, B) for B in v['Bs']]
